@@ -4,6 +4,7 @@ import (
 	"fmt"
 	"sort"
 	"strings"
+	"sync"
 
 	"github.com/gookit/rux"
 	"pgregory.net/rapid"
@@ -402,9 +403,16 @@ func RegisterOne(r *rux.Router, d RouteDef, path string, h rux.HandlerFunc) {
 		}
 		r.AddNamed(name, path, h, sp...)
 	case 2:
-		r.AddRoute(rux.NewNamedRoute(name, path, h, ms...))
+		// the caller goes on using the slice it passed as methods... (here: overwrites it) before the route is attached
+		own := append([]string(nil), ms...)
+		rt := rux.NewNamedRoute(name, path, h, own...)
+		scribble(own)
+		r.AddRoute(rt)
 	case 3:
-		rux.NamedRoute(name, path, h, ms...).AttachTo(r)
+		own := append(make([]string, 0, len(ms)+2), ms...)
+		rt := rux.NamedRoute(name, path, h, own...)
+		scribble(own)
+		rt.AttachTo(r)
 	case 4:
 		if len(ms) == 1 && ms[0] == "GET" {
 			r.AddNamed(name, path, h) // no methods: GET
@@ -414,11 +422,65 @@ func RegisterOne(r *rux.Router, d RouteDef, path string, h rux.HandlerFunc) {
 	case 5:
 		r.Add(path, h, ms...).NamedTo(name, r)
 	case 6:
-		rt := rux.NewRoute(path, h, ms...)
+		own := append([]string(nil), ms...)
+		rt := rux.NewRoute(path, h, own...)
 		rt.AttachTo(r)
+		scribble(own)
 		rt.NamedTo(name, r)
 	default:
 		r.AddNamed(name, path, h, ms...)
+	}
+}
+
+// Lookup is one (method, path) pair with the route index the sequential lookup gave.
+type Lookup struct {
+	Method, Path string
+	Route        int
+}
+
+// ConcurrentLookups repeats lookups from several goroutines at once (Router.Match, which is what ServeHTTP uses) and
+// returns a description of the first answer that differs from the sequential one, or "".  Lookups share nothing the
+// application owns, so a different answer means that the router's lookups disturb each other.
+func ConcurrentLookups(r *rux.Router, ls []Lookup, goroutines, rounds int) string {
+	if len(ls) == 0 {
+		return ""
+	}
+	var wg sync.WaitGroup
+	bad := make(chan string, goroutines)
+	start := make(chan struct{})
+	for g := 0; g < goroutines; g++ {
+		wg.Add(1)
+		go func(g int) {
+			defer wg.Done()
+			<-start
+			for k := 0; k < rounds; k++ {
+				l := ls[(g+k)%len(ls)]
+				rt, _, _ := r.Match(l.Method, l.Path)
+				if got := RouteIndex(rt); got != l.Route {
+					select {
+					case bad <- fmt.Sprintf("Match(%s,%q) answered route %d while %d other goroutines were looking up paths, alone it answers route %d", l.Method, l.Path, got, goroutines-1, l.Route):
+					default:
+					}
+					return
+				}
+			}
+		}(g)
+	}
+	close(start)
+	wg.Wait()
+	select {
+	case msg := <-bad:
+		return msg
+	default:
+		return ""
+	}
+}
+
+// scribble overwrites a slice the caller owns (elements and spare capacity) with a method name no route has.
+func scribble(ms []string) {
+	ms = ms[:cap(ms)]
+	for i := range ms {
+		ms[i] = "BREW"
 	}
 }
 
